@@ -6,6 +6,7 @@
 -/
 import IpfixModel.Lemmas.E2E
 import IpfixModel.Lemmas.Unknown
+import IpfixModel.Lemmas.Store4
 import IpfixModel.Props.C03
 import IpfixModel.Props.C08
 import IpfixModel.Props.C16
@@ -243,5 +244,401 @@ example : (match d0.build true with
     | none => false) = true ∧
     (∀ r ∈ d0.recs, r.2.map (·.1) = ies0) ∧ 0 < minRecordLen ies0 :=
   ⟨by decide +kernel, by decide +kernel, by decide +kernel⟩
+
+/-! ## Whole sessions -/
+
+/-- one SendSet of the application -/
+inductive AppSend where
+  | template (tid : Nat) (ies : List IE)            -- a template set with one template record
+  | data (tid : Nat) (recs : List (List Elem))      -- a data set for template `tid`
+  deriving Repr, DecidableEq
+
+/-- the value a template record carries for an element: its zero value -/
+def tplValue (ie : IE) : Value :=
+  match zeroValue ie with
+  | .ok v => v
+  | _ => .num 0
+
+/-- the set as the application builds it: a template set holds one template record (every element
+    with its zero value), a data set one data record per entry, all with the set's template id.
+    The session theorems build it with the slice-adopting path, `SetDesc.build true` (AddRecordV2);
+    `desc_build_paths` shows the copying path (AddRecord) builds the same set. -/
+def AppSend.desc : AppSend → SetDesc
+  | .template tid ies => { ty := .template, setId := Generated.cTemplateSetID, recs := [(tid, ies.map fun ie => (ie, tplValue ie))] }
+  | .data tid recs => { ty := .data, setId := tid, recs := recs.map fun r => (tid, r) }
+
+/-- the templates in force after one more send: a template set (re)defines its id -/
+def AppSend.define (known : Nat → Option (List IE)) : AppSend → Nat → Option (List IE)
+  | .template t ies => fun x => if x = t then some ies else known x
+  | .data _ _ => known
+
+/-- the templates in force after the sends `pre`, starting from `known` -/
+def templatesAfter (known : Nat → Option (List IE)) (pre : List AppSend) : Nat → Option (List IE) :=
+  pre.foldl AppSend.define known
+
+/-- the fields in force for `tid` after the sends `pre` (the LAST template sent with that id), if any -/
+def lastTemplate (tid : Nat) (pre : List AppSend) : Option (List IE) :=
+  templatesAfter (fun _ => none) pre tid
+
+theorem lastTemplate_nil (tid : Nat) : lastTemplate tid [] = none := rfl
+
+theorem lastTemplate_template_same (tid : Nat) (pre : List AppSend) (ies : List IE) :
+    lastTemplate tid (pre ++ [.template tid ies]) = some ies := by
+  simp [lastTemplate, templatesAfter, List.foldl_append, AppSend.define]
+
+theorem lastTemplate_template_other (tid t : Nat) (pre : List AppSend) (ies : List IE) (h : tid ≠ t) :
+    lastTemplate tid (pre ++ [.template t ies]) = lastTemplate tid pre := by
+  simp [lastTemplate, templatesAfter, List.foldl_append, AppSend.define, h]
+
+theorem lastTemplate_data (tid t : Nat) (pre : List AppSend) (recs : List (List Elem)) :
+    lastTemplate tid (pre ++ [.data t recs]) = lastTemplate tid pre := by
+  simp [lastTemplate, templatesAfter, List.foldl_append, AppSend.define]
+
+/-- one step of the session: build (AddRecordV2 path), send (exporter model), decode (collector
+    model); `none` if the set cannot be built or the send is refused -/
+def sessionStep (lookup : Nat → Nat → Option IE) (mode : Mode) (time : Nat) (st : ExpState) (c : CState)
+    (a : AppSend) : Option (ExpState × CState × Outcome Msg) :=
+  match a.desc.build true with
+  | none => none
+  | some s =>
+    match st.sendBuilt time s with
+    | (_, .err) => none
+    | (st', .ok _ w) => some (st', (decodePacket lookup mode c w).1, (decodePacket lookup mode c w).2)
+
+/-- the whole session; `none` as soon as one send fails -/
+def runSession (lookup : Nat → Nat → Option IE) (mode : Mode) (time : Nat) :
+    ExpState → CState → List AppSend → Option (ExpState × CState × List (Outcome Msg))
+  | st, c, [] => some (st, c, [])
+  | st, c, a :: rest =>
+    match sessionStep lookup mode time st c a with
+    | none => none
+    | some (st1, c1, o) =>
+      match runSession lookup mode time st1 c1 rest with
+      | none => none
+      | some (st', c', os) => some (st', c', o :: os)
+
+/-- what the collector must deliver for one send -/
+def expectedBody : AppSend → Decoded
+  | .template tid ies => .template tid ies
+  | .data tid recs => .data tid (recs.map fun r => r.map fun e => C15.canon e.1 e.2)
+
+/-- the exporter's message counter after the sends `pre`: data records count, templates do not -/
+def seqAfter (seq : Nat) : List AppSend → Nat
+  | [] => seq
+  | .template _ _ :: rest => seqAfter seq rest
+  | .data _ recs :: rest => seqAfter ((seq + recs.length) % 4294967296) rest
+
+/-- the template analogue of `e2e_send_data`: a template set built from `.template tid ies` and sent
+    successfully is decoded to the same template, which replaces the collector's entry for
+    (domain, id); the counter does not move -/
+theorem e2e_send_template (lookup : Nat → Nat → Option IE) (mode : Mode) (st st' : ExpState) (c : CState)
+    (tid : Nat) (ies : List IE) (s : SetB) (time n : Nat) (w : Bytes)
+    (hb : (AppSend.template tid ies).desc.build true = some s) (hsend : st.sendBuilt time s = (st', .ok n w))
+    (hreg : ∀ ie ∈ ies, Registered lookup ie)
+    (hd : st.dom < 4294967296) (hs : st.seq < 4294967296) (ht : time < 4294967296) (htid : tid < 65536) :
+    ∃ hdr, decodePacket lookup mode c w =
+      (c.insert (st.dom, tid) ies, .ok { hdr := hdr, body := .template tid ies }) ∧
+      hdr.dom = st.dom ∧ hdr.seq = st.seq ∧ st'.seq = st.seq ∧ st'.dom = st.dom ∧ hdr.length = w.length ∧
+      hdr.exportTime = time := by
+  have hmap : (ies.map fun ie => (ie, tplValue ie)).map (·.1) = ies := by
+    simp [List.map_map, Function.comp_def]
+  have hs0 : s = { header := be 2 Generated.cTemplateSetID ++ SetB.new.header.drop 2, ty := .template,
+                   recs := [{ isTemplate := true, tid := tid, fieldCount := ies.length,
+                              elems := ies.map fun ie => (ie, tplValue ie), bytes := templateRecordBytes tid ies }],
+                   length := 4 + (templateRecordBytes tid ies).length } := by
+    simp [AppSend.desc, SetDesc.build, SetB.prepare, SetB.addRecordV2, hmap, SetB.new, Rec.length] at hb
+    rw [← hb]; simp [SetB.new]
+  have sinv : C16.Inv s := by rw [hs0]; simp [C16.Inv, SetB.new, Rec.length]
+  obtain ⟨hn, hdom, hseq, hmsg⟩ := C08.send_ok st st' time s n w hsend
+  have hty : s.ty = .template := by rw [hs0]
+  rw [hty] at hseq
+  simp at hseq
+  have htake : s.header.take 2 = be 2 2 := by rw [hs0]; rfl
+  have hw := exporter_emits_wire s sinv 2 st.dom st'.seq time w htake hmsg
+  have hw' : w = templateWire st.dom st.seq time tid ies := by
+    rw [hw, hseq, hs0]
+    simp [dataWire, templateWire]
+    rfl
+  have hsz := C16.createMsg_length s.updateLen (C16.inv_step s .updateLen sinv) _ _ _ w hmsg
+  have hlen : s.updateLen.length = 4 + (templateRecordBytes tid ies).length := by rw [hs0]; rfl
+  have := e2e_template lookup mode c st.dom st.seq time tid ies hreg hd hs ht htid (by omega)
+  rw [← hw'] at this
+  exact ⟨_, this, rfl, rfl, hseq, hdom, by simp; omega, rfl⟩
+
+/-- the data set an application builds from `.data tid recs` has one record per entry -/
+theorem build_data_count (d : SetDesc) (s : SetB) (hty : d.ty = .data) (hb : d.build true = some s) :
+    s.ty = .data ∧ s.recs.length = d.recs.length := by
+  unfold SetDesc.build at hb
+  rw [hty] at hb
+  simp only [SetB.prepare] at hb
+  have hi0 : C16.Inv { SetB.new with ty := SetType.data, header := be 2 d.setId ++ SetB.new.header.drop 2 } := by
+    simp [C16.Inv, SetB.new]
+  obtain ⟨sty, _, _, sbytes⟩ := build_data_facts d.recs _ s rfl hi0 (by simpa using hb)
+  refine ⟨sty, ?_⟩
+  have := congrArg List.length sbytes
+  simpa [SetB.new] using this
+
+/-- what the session theorem asks of a template that is sent: the collector finds every element in its
+    registry exactly as described, elements well-formed and named, a record has at least one byte,
+    the id is a template id -/
+def TemplateOK (lookup : Nat → Nat → Option IE) (tid : Nat) (ies : List IE) : Prop :=
+  (∀ ie ∈ ies, Registered lookup ie ∧ ie.WF ∧ ie.name ≠ "") ∧ 0 < minRecordLen ies ∧ 256 ≤ tid ∧ tid < 65536
+
+theorem seqAfter_cons (seq : Nat) (a : AppSend) (l : List AppSend) :
+    seqAfter seq (a :: l) = seqAfter (seqAfter seq [a]) l := by
+  cases a <;> rfl
+
+theorem seqAfter_lt (seq : Nat) (l : List AppSend) (h : seq < 4294967296) : seqAfter seq l < 4294967296 := by
+  induction l generalizing seq with
+  | nil => exact h
+  | cons a t ih =>
+    cases a with
+    | template _ _ => exact ih seq h
+    | data _ recs => exact ih _ (Nat.mod_lt _ (by decide))
+
+/-- one step of a session: with the collector holding, for the exporter's domain, the templates `known`
+    (all of them `TemplateOK`), a send that goes through is delivered as handed over, and afterwards the
+    collector holds the templates `a.define known` -/
+theorem session_step (lookup : Nat → Nat → Option IE) (mode : Mode) (time : Nat)
+    (known : Nat → Option (List IE)) (st st1 : ExpState) (c c1 : CState) (a : AppSend) (o : Outcome Msg)
+    (hstep : sessionStep lookup mode time st c a = some (st1, c1, o))
+    (hgood : ∀ tid ies, a = .template tid ies → TemplateOK lookup tid ies)
+    (hshape : ∀ tid recs, a = .data tid recs → ∃ ies, known tid = some ies ∧ ∀ r ∈ recs, r.map (·.1) = ies)
+    (hinv : ∀ tid ies, known tid = some ies → c.lookup (st.dom, tid) = some ies ∧ TemplateOK lookup tid ies)
+    (hd : st.dom < 4294967296) (hs : st.seq < 4294967296) (ht : time < 4294967296) :
+    st1.dom = st.dom ∧ st1.seq = seqAfter st.seq [a] ∧
+    (∀ tid ies, a.define known tid = some ies → c1.lookup (st.dom, tid) = some ies ∧ TemplateOK lookup tid ies) ∧
+    ∃ m, o = .ok m ∧ m.body = expectedBody a ∧ m.hdr.dom = st.dom ∧ m.hdr.exportTime = time ∧ m.hdr.seq = st1.seq := by
+  unfold sessionStep at hstep
+  cases hb : a.desc.build true with
+  | none => simp [hb] at hstep
+  | some s =>
+    cases hsend : st.sendBuilt time s with
+    | mk st' r =>
+      cases r with
+      | err => simp [hb, hsend] at hstep
+      | ok n w =>
+        simp only [hb, hsend, Option.some.injEq, Prod.mk.injEq] at hstep
+        obtain ⟨h1, h2, h3⟩ := hstep
+        subst h1
+        cases a with
+        | template tid ies =>
+          obtain ⟨hel, hmin, hlo, hhi⟩ := hgood tid ies rfl
+          obtain ⟨hdr, hdec, e1, e2, e3, e4, _, e6⟩ := e2e_send_template lookup mode st st' c tid ies s time n w hb hsend
+            (fun ie h => (hel ie h).1) hd hs ht hhi
+          rw [hdec] at h2 h3
+          simp only at h2 h3
+          subst h2 h3
+          refine ⟨e4, by simpa [seqAfter] using e3, ?_, _, rfl, rfl, e1, e6, by rw [e2, e3]⟩
+          intro t x hx
+          simp only [AppSend.define] at hx
+          by_cases htt : t = tid
+          · subst htt
+            simp at hx
+            subst hx
+            exact ⟨CState.lookup_insert_same _ _ _, hel, hmin, hlo, hhi⟩
+          · simp [htt] at hx
+            obtain ⟨k1, k2⟩ := hinv t x hx
+            refine ⟨?_, k2⟩
+            rw [CState.lookup_insert_other _ _ _ _ (by intro h; exact htt (by injection h))]
+            exact k1
+        | data tid recs =>
+          obtain ⟨ies, hk, hsh⟩ := hshape tid recs rfl
+          obtain ⟨hc, hel, hmin, hlo, hhi⟩ := hinv tid ies hk
+          obtain ⟨sty, scount⟩ := build_data_count _ s rfl hb
+          obtain ⟨_, hdom, hseq, _⟩ := C08.send_ok st st' time s n w hsend
+          obtain ⟨hdr, hdec, e1, e2, _, e4⟩ := e2e_send_data lookup mode st st' c (AppSend.data tid recs).desc s time n w ies
+            rfl hb hsend hc hmin (fun ie h => (hel ie h).2.1) (fun ie h => (hel ie h).2.2)
+            (by intro r hr; simp [AppSend.desc] at hr; obtain ⟨x, hx, rfl⟩ := hr; exact hsh x hx)
+            hd ht hhi (by show tid ≠ 2; omega)
+          rw [hdec] at h2 h3
+          simp only at h2 h3
+          subst h2 h3
+          refine ⟨hdom, ?_, ?_, _, rfl, ?_, e1, e4, e2⟩
+          · rw [hseq, sty, scount]; simp [seqAfter, AppSend.desc]
+          · intro t x hx; exact hinv t x hx
+          · simp [expectedBody, AppSend.desc, List.map_map, Function.comp_def]
+
+/-- the session theorem, started in the middle of a session: the collector already holds the templates
+    `known` for the exporter's domain -/
+theorem session_gen (lookup : Nat → Nat → Option IE) (mode : Mode) (time : Nat) (sends : List AppSend) :
+    ∀ (known : Nat → Option (List IE)) (st st' : ExpState) (c c' : CState) (outs : List (Outcome Msg)),
+    runSession lookup mode time st c sends = some (st', c', outs) →
+    (∀ tid ies, AppSend.template tid ies ∈ sends → TemplateOK lookup tid ies) →
+    (∀ pre tid recs post, sends = pre ++ AppSend.data tid recs :: post →
+        ∃ ies, templatesAfter known pre tid = some ies ∧ ∀ r ∈ recs, r.map (·.1) = ies) →
+    (∀ tid ies, known tid = some ies → c.lookup (st.dom, tid) = some ies ∧ TemplateOK lookup tid ies) →
+    st.dom < 4294967296 → st.seq < 4294967296 → time < 4294967296 →
+    outs.length = sends.length ∧ st'.dom = st.dom ∧ st'.seq = seqAfter st.seq sends ∧
+    (∀ tid ies, templatesAfter known sends tid = some ies → c'.lookup (st.dom, tid) = some ies) ∧
+    ∀ i (hi : i < sends.length), ∃ m, outs[i]? = some (.ok m) ∧ m.body = expectedBody sends[i] ∧
+      m.hdr.dom = st.dom ∧ m.hdr.exportTime = time ∧ m.hdr.seq = seqAfter st.seq (sends.take (i + 1)) := by
+  induction sends with
+  | nil =>
+    intro known st st' c c' outs hrun _ _ hinv _ _ _
+    simp only [runSession, Option.some.injEq, Prod.mk.injEq] at hrun
+    obtain ⟨h1, h2, h3⟩ := hrun
+    subst h1 h2 h3
+    refine ⟨rfl, rfl, rfl, fun tid ies h => (hinv tid ies h).1, ?_⟩
+    intro i hi; simp at hi
+  | cons a rest ih =>
+    intro known st st' c c' outs hrun htpl hdata hinv hd hs ht
+    unfold runSession at hrun
+    cases hstep : sessionStep lookup mode time st c a with
+    | none => simp [hstep] at hrun
+    | some x =>
+      obtain ⟨st1, c1, o⟩ := x
+      cases hrest : runSession lookup mode time st1 c1 rest with
+      | none => simp [hstep, hrest] at hrun
+      | some y =>
+        obtain ⟨st2, c2, os⟩ := y
+        simp only [hstep, hrest, Option.some.injEq, Prod.mk.injEq] at hrun
+        obtain ⟨h1, h2, h3⟩ := hrun
+        subst h1 h2 h3
+        obtain ⟨sdom, sseq, sinv, m, hm, mbody, mdom, mtime, mseq⟩ :=
+          session_step lookup mode time known st st1 c c1 a o hstep
+            (fun tid ies h => htpl tid ies (by rw [h]; simp))
+            (fun tid recs h => by
+              have := hdata [] tid recs rest (by rw [h]; rfl)
+              simpa [templatesAfter] using this)
+            hinv hd hs ht
+        have hs1 : st1.seq < 4294967296 := by rw [sseq]; exact seqAfter_lt _ _ hs
+        obtain ⟨ilen, idom, iseq, ic, iall⟩ := ih (a.define known) st1 st2 c1 c2 os hrest
+          (fun tid ies h => htpl tid ies (by simp [h]))
+          (fun pre tid recs post h => by
+            have := hdata (a :: pre) tid recs post (by rw [h]; rfl)
+            simpa [templatesAfter] using this)
+          (by rw [sdom]; exact sinv) (by rw [sdom]; exact hd) hs1 ht
+        rw [sdom] at idom ic iall
+        refine ⟨by simp [ilen], idom, ?_, ?_, ?_⟩
+        · rw [iseq, sseq, ← seqAfter_cons]
+        · intro tid ies h
+          exact ic tid ies (by simpa [templatesAfter] using h)
+        · intro i hi
+          cases i with
+          | zero =>
+            refine ⟨m, by simp [hm], by simpa using mbody, mdom, mtime, ?_⟩
+            rw [mseq, sseq]; rfl
+          | succ j =>
+            obtain ⟨m', g1, g2, g3, g4, g5⟩ := iall j (by simpa using hi)
+            refine ⟨m', by simpa using g1, by simpa using g2, g3, g4, ?_⟩
+            rw [g5, sseq, List.take_succ_cons, ← seqAfter_cons]
+
+/-- C01 for whole sessions: for ANY sequence of template and data sets that an application hands to the
+    exporter model and that are all sent successfully (`runSession` is `some`), the collector model - fed
+    the exporter's wire messages in order, starting from ANY collector state `c` - delivers for the i-th
+    message exactly what was handed over: a template message with the same id and fields, or a data message
+    with the same number of records and every value identical (addresses canonical), decoded with the
+    template most recently sent for that id in THIS session; every message carries the exporter's domain,
+    the export time and the exporter's counter after that send. Afterwards the collector holds, for the
+    exporter's domain, the last template of every id sent. -/
+theorem e2e_session (lookup : Nat → Nat → Option IE) (mode : Mode) (time : Nat) (st st' : ExpState) (c c' : CState)
+    (sends : List AppSend) (outs : List (Outcome Msg))
+    (hrun : runSession lookup mode time st c sends = some (st', c', outs))
+    -- every template sent: elements the collector finds in its registry exactly as described, well-formed, named, id bounds
+    (htpl : ∀ tid ies, AppSend.template tid ies ∈ sends →
+        (∀ ie ∈ ies, Registered lookup ie ∧ ie.WF ∧ ie.name ≠ "") ∧ 0 < minRecordLen ies ∧ 256 ≤ tid ∧ tid < 65536)
+    -- every data set sent: its records have the shape of the template most recently sent for its id in THIS session
+    (hdata : ∀ pre tid recs post, sends = pre ++ AppSend.data tid recs :: post →
+        ∃ ies, lastTemplate tid pre = some ies ∧ ∀ r ∈ recs, r.map (·.1) = ies)
+    (hdom : st.dom < 4294967296) (hseq : st.seq < 4294967296) (htime : time < 4294967296) :
+    outs.length = sends.length ∧
+    (∀ i (hi : i < sends.length), ∃ m, outs[i]? = some (.ok m) ∧ m.body = expectedBody sends[i] ∧
+      m.hdr.dom = st.dom ∧ m.hdr.exportTime = time ∧ m.hdr.seq = seqAfter st.seq (sends.take (i + 1))) ∧
+    st'.dom = st.dom ∧ st'.seq = seqAfter st.seq sends ∧
+    (∀ tid ies, lastTemplate tid sends = some ies → c'.lookup (st.dom, tid) = some ies) := by
+  obtain ⟨h1, h2, h3, h4, h5⟩ := session_gen lookup mode time sends (fun _ => none) st st' c c' outs hrun htpl hdata
+    (by intro tid ies h; cases h) hdom hseq htime
+  exact ⟨h1, h5, h2, h3, h4⟩
+
+/-! ### The two add paths build the same sets -/
+
+theorem tplValue_empty (ie : IE) : elemEmpty (ie, tplValue ie) = true := by
+  obtain ⟨n, i, ty, e, l⟩ := ie
+  cases ty <;> rfl
+
+theorem fold_paths_data (recs : List (Nat × List Elem)) (s0 : Option SetB) (h : ∀ s, s0 = some s → s.ty = .data) :
+    recs.foldl (fun acc r => acc.bind fun s => s.addRecord r.2 r.1) s0 =
+    recs.foldl (fun acc r => acc.bind fun s => s.addRecordV2 r.2 r.1) s0 := by
+  induction recs generalizing s0 with
+  | nil => rfl
+  | cons r t ih =>
+    simp only [List.foldl_cons]
+    cases s0 with
+    | none => exact ih none (by intro s hs; cases hs)
+    | some s =>
+      have hty := h s rfl
+      simp only [Option.bind_some, C16.add_paths_equiv_data s r.2 r.1 hty]
+      apply ih
+      intro s1 hs1
+      simp only [SetB.addRecordV2, hty] at hs1
+      cases he : encodeRecord r.2 with
+      | none => simp [he] at hs1
+      | some bs => simp [he] at hs1; rw [← hs1]
+
+/-- the sets of a session may as well be built with the copying path (AddRecord /
+    AddRecordWithExtraElements): it builds the same set, or fails on the same set, as AddRecordV2 -/
+theorem desc_build_paths (a : AppSend) : a.desc.build false = a.desc.build true := by
+  cases a with
+  | template tid ies =>
+    have := C16.add_paths_equiv_template
+      { SetB.new with ty := .template, header := be 2 Generated.cTemplateSetID ++ SetB.new.header.drop 2 }
+      (ies.map fun ie => (ie, tplValue ie)) tid rfl
+      (by intro e he; simp at he; obtain ⟨ie, _, rfl⟩ := he; exact tplValue_empty ie)
+    simpa [AppSend.desc, SetDesc.build, SetB.prepare] using this
+  | data tid recs =>
+    simp only [AppSend.desc, SetDesc.build, SetB.prepare, Bool.false_eq_true, if_false, if_true]
+    exact fold_paths_data _ _ (by intro s hs; cases hs; rfl)
+
+/-! ### Non-vacuity: a session with a re-definition, started from a collector that holds a stale template -/
+
+/-- template 256 = `ies0`, one record; 256 re-defined with the fields swapped, two records -/
+def session0 : List AppSend :=
+  [.template 256 ies0,
+   .data 256 [[(ies0[0]!, .num 6), (ies0[1]!, .bytes [104, 105])]],
+   .template 256 ies0.reverse,
+   .data 256 [[(ies0[1]!, .bytes [104, 105]), (ies0[0]!, .num 6)], [(ies0[1]!, .bytes []), (ies0[0]!, .num 17)]]]
+
+/-- a collector that still holds another template for (7, 256) -/
+def cstale : CState := { templates := [((7, 256), [ies0[0]!])] }
+
+example : (match runSession lookupIE .strict 0 { dom := 7 } cstale session0 with
+    | some (st', c', outs) =>
+      st'.seq == 3 && c'.lookup (7, 256) == some ies0.reverse &&
+      outs.map (fun o => match o with | .ok m => some (m.hdr.dom, m.hdr.seq, m.body) | _ => none) ==
+        [some (7, 0, .template 256 ies0),
+         some (7, 1, .data 256 [[.num 6, .bytes [104, 105]]]),
+         some (7, 1, .template 256 ies0.reverse),
+         some (7, 3, .data 256 [[.bytes [104, 105], .num 6], [.bytes [], .num 17]])]
+    | none => false) = true := by decide +kernel
+
+/-- ... and it meets the hypotheses of `e2e_session` -/
+example : (∀ tid ies, AppSend.template tid ies ∈ session0 →
+      (∀ ie ∈ ies, Registered lookupIE ie ∧ ie.WF ∧ ie.name ≠ "") ∧ 0 < minRecordLen ies ∧ 256 ≤ tid ∧ tid < 65536) ∧
+    (∀ pre tid recs post, session0 = pre ++ AppSend.data tid recs :: post →
+      ∃ ies, lastTemplate tid pre = some ies ∧ ∀ r ∈ recs, r.map (·.1) = ies) := by
+  have hreg : ∀ ie ∈ ies0, Registered lookupIE ie ∧ ie.WF ∧ ie.name ≠ "" := by
+    intro ie h
+    simp [ies0] at h
+    rcases h with rfl | rfl <;>
+      exact ⟨⟨by decide +kernel, by decide, by simp [C02.SpecOK]⟩, by decide, by decide⟩
+  constructor
+  · intro tid ies h
+    simp [session0] at h
+    rcases h with ⟨rfl, rfl⟩ | ⟨rfl, rfl⟩
+    · exact ⟨hreg, by decide, by omega, by omega⟩
+    · exact ⟨fun ie h => hreg ie (by simp [ies0] at h ⊢; exact h.symm), by decide, by omega, by omega⟩
+  · intro pre tid recs post h
+    rcases pre with _ | ⟨a, _ | ⟨b, _ | ⟨c, _ | ⟨d, _ | ⟨e, pre⟩⟩⟩⟩⟩ <;> simp [session0] at h
+    · obtain ⟨rfl, ⟨rfl, rfl⟩, _⟩ := h
+      exact ⟨ies0, by decide, by decide⟩
+    · obtain ⟨rfl, rfl, rfl, ⟨rfl, rfl⟩, _⟩ := h
+      exact ⟨ies0.reverse, by decide, by decide⟩
+
+/-- outside the theorem (its `hrun` fails): the exporter keeps the FIRST definition of an id for its
+    sanity check (`ExpState.register`), so after a re-definition with another field count it refuses the
+    data sets of the new shape - such a session is not "sent successfully" -/
+example : (runSession lookupIE .strict 0 { dom := 7 } {}
+    [.template 256 ies0, .template 256 [ies0[0]!], .data 256 [[(ies0[0]!, .num 17)]]]).isNone = true := by decide +kernel
 
 end Ipfix.C01
